@@ -1,16 +1,28 @@
-import CentrifugeVerif.Proofs.SubProto
+import CentrifugeVerif.Proofs.SubProtoInv
+import CentrifugeVerif.Model.SubProtoWitness
 /-!
 # C07 — join and leave events are paired and ordered
+
+Proved for every reachable state (all labels, all interleavings, failures, timeouts):
+* `log_only_grows` — an emitted join or leave is never retracted or reordered;
+* `join_leave_only_after_commit` — every join and every leave in the broker call log is preceded by the
+  commit (`commitSubscription` installing the context, a ghost event of the model) of the very
+  generation it is emitted for.  Hence no join and no leave is emitted for a subscribe attempt that
+  failed or was rolled back (such an attempt never commits).
+
+The pairing / ordering half of the property is FALSE for the code as modelled; the three checked
+executions below are replayed on the implementation by the check (findings C07-1, C07-2, C07-3a):
+* `leave_can_precede_join` — [leave, join] for one subscription;
+* `leave_without_join` — a leave although no join was published;
+* `two_joins_one_subscription` — (needs the wait-gate timeout) two joins for one generation.
 -/
 namespace CentrifugeVerif.SubProto
 
 theorem applyEff_log_prefix (s : State) (e : Eff) : s.log <+: (applyEff s e).log := by
-  cases e <;> simp only [applyEff] <;> (try split) <;> (try split) <;> simp
+  cases e <;> simp
 
 theorem applyEffs_log_prefix (es : List Eff) (s : State) : s.log <+: (applyEffs s es).log := by
-  induction es generalizing s with
-  | nil => exact List.prefix_refl _
-  | cons e r ih => exact List.IsPrefix.trans (applyEff_log_prefix s e) (ih _)
+  rw [log_applyEffs_eq]; exact List.prefix_append _ _
 
 /-- the broker call log only grows: an emitted join or leave is never retracted or reordered -/
 theorem log_only_grows (s s' : State) (l : Label) (hn : next s l = some s') : s.log <+: s'.log := by
@@ -19,13 +31,37 @@ theorem log_only_grows (s s' : State) (l : Label) (hn : next s l = some s') : s.
     simp only [next, Option.some.injEq] at hn
     subst hn; exact List.prefix_refl _
   | step tid o =>
-    simp only [next] at hn
-    split at hn
-    · cases hn
-    · split at hn
-      · cases hn
-      · simp only [Option.some.injEq] at hn
-        subst hn
-        exact applyEffs_log_prefix _ { s with threads := setThread s.threads tid _ }
+    obtain ⟨t, effs, t', _, _, rfl⟩ := next_step_some hn
+    exact applyEffs_log_prefix _ { s with threads := setThread s.threads tid t' }
+
+/-- Every join and every leave in the log comes after the commit of its generation: nothing is
+emitted for an attempt that failed or was rolled back. -/
+theorem join_leave_only_after_commit (s : State) (h : Reachable s) (pre suf : List Ev) (ev : Ev)
+    (hl : s.log = pre ++ ev :: suf) (ch : Chan) (g : Gen) (hev : ev = .join ch g ∨ ev = .leave ch g) :
+    Ev.commit ch g ∈ pre :=
+  (reachable_invariant Ghost Ghost.init next_ghost s h).logOk pre ev suf hl ch g hev
+
+/-- a concrete instance of the hypotheses: after a complete client-side subscribe with join/leave
+emission the log is [commit, join] -/
+example : (run State.init [.spawn .csub 0 ⟨false, true⟩, .step 0 .ok, .step 0 .ok, .step 0 .ok, .step 0 .ok,
+    .step 0 .ok, .step 0 .ok, .step 0 .ok, .step 0 .ok, .step 0 .ok, .step 0 .ok]).map (·.log) =
+    some [.replyOk 0, .commit 0 1, .join 0 1] := by decide
+
+/-
+`join_leave_paired` (full statement, false on the model and on the implementation):
+  Reachable s → s.settled → c07Ok s = true
+-/
+
+theorem leave_can_precede_join :
+    (run State.init wLeaveBeforeJoin).map (fun s => (settledB s, s.log.filter (fun e => e matches .join .. | .leave ..), c07Ok s)) =
+      some (true, [.leave 0 1, .join 0 1], false) := by decide
+
+theorem leave_without_join :
+    (run State.init wLeaveWithoutJoin).map (fun s => (settledB s, s.log.filter (fun e => e matches .join .. | .leave ..), c07CountOk s)) =
+      some (true, [.leave 0 1], false) := by decide
+
+theorem two_joins_one_subscription :
+    (run State.init wTwoJoins).map (fun s => (settledB s, s.log.filter (fun e => e matches .join .. | .leave ..), c07Ok s)) =
+      some (true, [.join 0 2, .join 0 2, .leave 0 2], false) := by decide
 
 end CentrifugeVerif.SubProto
